@@ -175,6 +175,96 @@ fn ht_runs(ctx: &Ctx, rep: &mut Report) {
     }
 }
 
+/// Stop SETS rather than edit histories: on wide screens, structured families of stop sets
+/// (k default stops cleared one by one - every window [i, j) of them; m hand-set stops at
+/// consecutive / every-2nd / every-3rd / every-5th columns starting at every offset 1..8,
+/// on top of the defaults or after clearing all) are built with HTS / TBC 0, and then the
+/// stops are scanned from EVERY column with HT, CHT n and CBT n and compared with a sorted-set
+/// model - the terminal is not rebuilt between the scans of one set.
+fn stop_sets(ctx: &Ctx, rep: &mut Report) {
+    use std::collections::BTreeSet;
+    let widths: &[usize] = ctx.tier.pick(&[132usize, 200][..], &[80usize, 132, 200, 300, 520][..]);
+    let mut sets: Vec<(usize, String, BTreeSet<usize>)> = vec![];
+    for &w in widths {
+        let defaults: Vec<usize> = default_stops(w);
+        // windows of cleared defaults
+        let nd = defaults.len().min(ctx.tier.pick(18, 40));
+        for i in 0..nd {
+            for j in i + 1..=nd {
+                let mut set: BTreeSet<usize> = defaults.iter().cloned().collect();
+                let mut setup = String::new();
+                for d in &defaults[i..j] {
+                    set.remove(d);
+                    setup.push_str(&format!("\x1b[{}G\x1b[g", d + 1));
+                }
+                sets.push((w, setup, set));
+            }
+        }
+        // runs of hand-set stops
+        for step in [1usize, 2, 3, 5, 8] {
+            for off in 1..=8usize {
+                for m in [1usize, 2, 7, 15, 16, 17, 18, 31, 32, 33, 40, 64, 65] {
+                    for clear_first in [false, true] {
+                        let mut set: BTreeSet<usize> = if clear_first { BTreeSet::new() } else { defaults.iter().cloned().collect() };
+                        let mut setup = String::from(if clear_first { "\x1b[3g" } else { "" });
+                        for t in 0..m {
+                            let col = off + t * step;
+                            if col >= w {
+                                break;
+                            }
+                            set.insert(col);
+                            setup.push_str(&format!("\x1b[{}G\x1bH", col + 1));
+                        }
+                        sets.push((w, setup, set));
+                    }
+                }
+            }
+        }
+    }
+    let bad: Vec<String> = sets
+        .par_iter()
+        .filter_map(|(w, setup, set)| {
+            let w = *w;
+            let r = crate::engine::guarded(|| {
+                let mut vt = build_vt(w, 1, Some(0));
+                let _ = vt.feed_str(setup);
+                let hidden: Vec<usize> = vt.verif_state().tabs.clone();
+                let want: Vec<usize> = set.iter().cloned().filter(|&c| c > 0).collect();
+                let got: Vec<usize> = hidden.iter().cloned().filter(|&c| c > 0 && c < w).collect();
+                if got != want {
+                    return Some(format!("{} columns after {}: stops {:?}, expected {:?}", w, esc(setup), got, want));
+                }
+                for col in 0..w {
+                    for (cmd, n, fwd) in [("\t", 1usize, true), ("\x1b[I", 1, true), ("\x1b[2I", 2, true), ("\x1b[5I", 5, true), ("\x1b[17I", 17, true), ("\x1b[Z", 1, false), ("\x1b[2Z", 2, false), ("\x1b[6Z", 6, false), ("\x1b[18Z", 18, false)] {
+                        let _ = vt.feed_str(&format!("\x1b[{}G{}", col + 1, cmd));
+                        let at = vt.cursor().col;
+                        let exp = if fwd { set.range(col + 1..w).nth(n - 1).cloned().unwrap_or(w - 1) } else { set.range(..col).rev().nth(n - 1).cloned().unwrap_or(0) };
+                        if at != exp {
+                            return Some(format!("{} columns after {}: {} from column {} ends at {}, the {}. stop {} is at {}", w, esc(setup), esc(cmd), col, at, n, if fwd { "to the right" } else { "to the left" }, exp));
+                        }
+                    }
+                }
+                None
+            });
+            match r {
+                Ok(x) => x,
+                Err(p) => Some(format!("{} columns after {}: panic: {}", w, esc(setup), p)),
+            }
+        })
+        .collect();
+    let moves: u64 = sets.iter().map(|(w, _, _)| *w as u64 * 9).sum();
+    rep.evaluations += moves;
+    rep.transitions += moves;
+    rep.traces_validated += sets.len() as u64;
+    rep.distinct_nontrivial += sets.len() as u64;
+    rep.parts.push(json!({"part":"stop-sets-on-wide-screens","widths":widths,"stop_sets":sets.len(),"moves_checked":moves,"violating":bad.len()}));
+    println!("part stop-sets-on-wide-screens: {} stop sets on widths {:?}, {} tab moves checked, {} violating", sets.len(), widths, moves, bad.len());
+    if let Some(d) = bad.first() {
+        emit_violation(ctx, rep, "C18", json!({"part":"stop-sets-on-wide-screens","oracle":"tab-stops","observed":d}));
+        rep.violations += bad.len() as u64 - 1;
+    }
+}
+
 fn alpha(cfg: &Cfg) -> Vec<Op> {
     let cols = cfg.cols as u32;
     let mut v: Vec<Op> = vec![];
@@ -234,6 +324,7 @@ pub fn run(ctx: &Ctx) -> Report {
     let mut rep = Report::new();
     width_sweep(ctx, &mut rep);
     ht_runs(ctx, &mut rep);
+    stop_sets(ctx, &mut rep);
     let p = parts!(ctx.tier, &SYS);
     run_part(ctx, &mut rep, &p);
     rep.rule = "(a) every pair of widths and every triple of small widths: build at the first width, resize along the chain, the tab stops (hook and HT scan) must be those of a fresh terminal of the final width; (b) lock-step BFS of (real Vt, reference terminal with a BTreeSet of stops) over CHA to boundary columns, HTS/CTC/TBC, HT/CHT/CBT with counts, text to the wrap-pending column, resizes to 7 widths; hidden tab stops compared after every transition".into();
@@ -242,6 +333,11 @@ pub fn run(ctx: &Ctx) -> Report {
 }
 
 pub fn replay(ctx: &Ctx, v: &Value) -> bool {
+    if v["part"] == "stop-sets-on-wide-screens" {
+        let mut rep = Report::new();
+        stop_sets(ctx, &mut rep);
+        return rep.violations > 0;
+    }
     if v["part"] == "ht-runs" {
         let mut rep = Report::new();
         ht_runs(ctx, &mut rep);
